@@ -404,7 +404,9 @@ func runC12Outage(long bool) (events []sx.V, fails []c12Fail, bad string) {
 		case c12Timeout:
 			at(sx.L(sx.A("ret"), sx.Nat(i), sx.A("expired")))
 		case c12SendErr:
-			at(sx.L(sx.A("ret"), sx.Nat(i), sx.A("err")))
+			// a failed send takes no time and starts the reconnect: in the merged history it
+			// stands at the call's start, before anything the server saw of that reconnect
+			log = append(log, c12Timed{c.start.Sub(t0), sx.L(sx.A("ret"), sx.Nat(i), sx.A("err"))})
 		default:
 			fail("unexpected-error", fmt.Sprintf("call %d: %v", i, c.err))
 			bad = "unexpected error"
@@ -485,6 +487,155 @@ func runC12Outage(long bool) (events []sx.V, fails []c12Fail, bad string) {
 	for _, ev := range log {
 		events = append(events, ev.v)
 	}
+	events = append(events, sx.L(sx.A("reg"), sx.Nat(e.cl.VerifRegistrySize())))
+	return events, fails, bad
+}
+
+const (
+	c12HoleHeal  = 2 * time.Second  // the server behaves again this long after the failed send
+	c12HoleBound = 14 * time.Second // 10 s for the attempt that fell into the hole, 1 s of sleep, slack
+)
+
+// runC12BlackHole: the server resets connection 0; when the client reconnects, the
+// server accepts TCP but (1) never answers the handshake, (2) sends ten bytes of
+// the answer and stops, (3) answers the handshake and is silent from then on.  The
+// swallowed connection stays open for ever.  Meanwhile every call has to return by
+// its deadline (send error, timeout, or an answer over a healthy connection); 2 s
+// later the server behaves again for new connections, and the client has to get
+// out of the hole by itself within a bounded time; later calls succeed.
+func runC12BlackHole(phase, nconn int) (events []sx.V, fails []c12Fail, bad string) {
+	const D = 300 * time.Millisecond
+	fail := func(key, what string) { fails = append(fails, c12Fail{key, what}) }
+	e, err := newC12Env(nconn, D)
+	if err != nil {
+		return nil, nil, "env: " + err.Error()
+	}
+	defer e.close()
+	l := e.srv.lns[0]
+	t0 := time.Now()
+	var log []c12Timed
+	at := func(v sx.V) { log = append(log, c12Timed{time.Since(t0), v}) }
+	next := 0
+	call := func() (cls, conn int) {
+		i := next
+		next++
+		c := e.startCallCtx(i, 0, i%2) // every other call under a caller deadline of an hour
+		var q c12Query
+		got := false
+		c12Wait(5*time.Second, func() bool {
+			q, got = e.srv.query(c.key)
+			return got || c.returned()
+		})
+		if !got {
+			c12Wait(50*time.Millisecond, func() bool { q, got = e.srv.query(c.key); return got })
+		}
+		d := uint64(i+1)<<11 | 8
+		conn = -1
+		if got {
+			conn = q.k
+			at(sx.L(sx.A("recv"), sx.Nat(i), sx.Nat(q.k)))
+			if fc, _ := e.srv.lns[q.k].current(); fc != nil && !fc.mute && e.srv.emit(q.k, c12Answer(q.id, c12Data(d))) == nil {
+				at(sx.L(sx.A("ans"), sx.Nat(q.k), sx.Nat(i), sx.N(d)))
+			}
+		}
+		if !c.wait(D + c12Hang) {
+			fail("call-hangs", fmt.Sprintf("call %d has not returned %v after its deadline of %v while connection 0 was in the black hole (phase %d)", i, c12Hang, D, phase))
+			bad = "hang"
+			return c12Other, conn
+		}
+		switch c.class() {
+		case c12Ok:
+			if string(c.res) != string(c12Data(d)) {
+				fail("foreign-answer", fmt.Sprintf("call %d returned bytes other than its answer", i))
+				d = 0
+			}
+			at(sx.L(sx.A("ret"), sx.Nat(i), sx.L(sx.A("ok"), sx.N(d))))
+		case c12Timeout:
+			at(sx.L(sx.A("ret"), sx.Nat(i), sx.A("expired")))
+		case c12SendErr:
+			// a failed send takes no time and starts the reconnect: in the merged history it
+			// stands at the call's start, before anything the server saw of that reconnect
+			log = append(log, c12Timed{c.start.Sub(t0), sx.L(sx.A("ret"), sx.Nat(i), sx.A("err"))})
+		default:
+			fail("unexpected-error", fmt.Sprintf("call %d: %v", i, c.err))
+			bad = "unexpected error"
+		}
+		return c.class(), conn
+	}
+	for n := 0; n < nconn; n++ {
+		if cls, _ := call(); cls != c12Ok {
+			return nil, fails, "warm-up call failed"
+		}
+	}
+	l.hs.Store(int32(phase))
+	at(sx.L(sx.A("drop"), sx.Nat(0), sx.Nat(1)))
+	e.srv.drop(0, true)
+	time.Sleep(2 * time.Millisecond)
+	started := false
+	for n := 0; n < 2*nconn+4 && bad == ""; n++ {
+		if cls, _ := call(); cls == c12SendErr {
+			started = true
+			break
+		}
+	}
+	if bad != "" {
+		return nil, fails, bad
+	}
+	if !started {
+		return nil, nil, "no send failed on the reset connection"
+	}
+	tRec := time.Now()
+	// meanwhile: calls return at once or by their deadline, and the healthy
+	// connections keep serving
+	okOther := 0
+	probe := func(n int) {
+		for ; n > 0 && bad == ""; n-- {
+			if cls, conn := call(); cls == c12Ok && conn > 0 {
+				okOther++
+			}
+		}
+	}
+	probe(3 * nconn)
+	time.Sleep(time.Until(tRec.Add(1500 * time.Millisecond)))
+	probe(2 * nconn)
+	if bad != "" {
+		return nil, fails, bad
+	}
+	if nconn > 1 && okOther == 0 {
+		fail("healthy-connection-unused", "no call was answered over the healthy connection while connection 0 was in the black hole")
+	}
+	time.Sleep(time.Until(tRec.Add(c12HoleHeal)))
+	_, g0 := l.current()
+	l.hs.Store(0)
+	ok := c12Wait(time.Until(tRec.Add(c12HoleBound)), func() bool {
+		_, g := l.current()
+		if g <= g0 {
+			return false
+		}
+		st, answered := c12Status(e.conns[0])
+		return answered && st == liteclient.Connected
+	})
+	if !ok {
+		st, _ := c12Status(e.conns[0])
+		fail("no-reconnect-after-black-hole", fmt.Sprintf("phase %d: the server has behaved for new connections since %v after the failed send, but %v after it connection 0 is not re-established (status %d, IsOK %v): "+
+			"the attempt that fell into the hole never ends", phase, c12HoleHeal, time.Since(tRec).Round(time.Millisecond), st, e.cl.IsOK()))
+	} else {
+		okc := 0
+		for n := 0; n < 2*nconn && bad == ""; n++ {
+			if cls, _ := call(); cls == c12Ok {
+				okc++
+			}
+		}
+		if okc != 2*nconn {
+			fail("later-call-fails", fmt.Sprintf("%d of %d calls succeeded after the client got out of the black hole", okc, 2*nconn))
+		}
+	}
+	l.mu.Lock()
+	for _, t := range l.refusedAt {
+		log = append(log, c12Timed{t.Sub(t0), sx.L(sx.A("dialfail"), sx.Nat(0))})
+	}
+	l.mu.Unlock()
+	events = c12TimedHistory(e.srv, t0, log, false)
 	events = append(events, sx.L(sx.A("reg"), sx.Nat(e.cl.VerifRegistrySize())))
 	return events, fails, bad
 }
